@@ -193,12 +193,31 @@ theorem tokens_strictly_consumed (cfg : Cfg) (ends : List String) (d : Nat) (t :
       (blockLoop cfg ends (getNode cfg d t r).1.depth (getNode cfg d t r).1.rest.tail).1.rest ∧
     (blockLoop cfg ends d (t :: r)).1.err =
       (blockLoop cfg ends (getNode cfg d t r).1.depth (getNode cfg d t r).1.rest.tail).1.err :=
-  ⟨wl_tail_lt (getNode cfg d t r).2, blockLoop_step cfg ends d t r hend hok⟩
+  ⟨wl_tail_lt (getNode cfg d t r).2.w, blockLoop_step cfg ends d t r hend hok⟩
 
 /-- No tag parser, and no parse of a whole template, ever leaves more stream than it was given. -/
 theorem parse_never_rewinds (cfg : Cfg) (d : Nat) (t : Tok) (r : List Tok) (ts : List Tok) :
     wl (getNode cfg d t r).1.rest ≤ wl (t :: r) ∧ wl (parseTemplate cfg ts).rest ≤ wl ts :=
-  ⟨(getNode cfg d t r).2, (blockLoop cfg [] 0 ts).2⟩
+  ⟨(getNode cfg d t r).2.w, (blockLoop cfg [] 0 ts).2.w⟩
+
+/-- **Total steps ≤ token count.**  For every token list, mode and nesting limit, the number of completed loop passes
+of a whole parse — all loops together: `_parse`, every nested `parse_block`, `eat_block`, the `elsif` / `case` /
+"ignore extraneous blocks" / comment / doc loops, and the passes over the inner streams of `liquid` tags — is at most the
+weight of the token stream (its tokens plus the line tokens inside `liquid` tags).  The potential that makes this
+compositional is `passes + phi(rest)`, where `phi` counts the current token as 1 whatever it carries: it survives a
+`liquid` tag whose inner parse raises in STRICT mode (the inner passes are paid by an expression token that is still
+unread when the error propagates), where `passes + weight(rest) ≤ weight` is false.  When the parse returns normally
+the stronger form holds too. -/
+theorem parse_steps_le_weight (cfg : Cfg) (ts : List Tok) :
+    (parseTemplate cfg ts).iters ≤ wl ts ∧
+    (parseTemplate cfg ts).iters + phi (parseTemplate cfg ts).rest ≤ wl ts ∧
+    ((parseTemplate cfg ts).err = none → (parseTemplate cfg ts).iters + wl (parseTemplate cfg ts).rest ≤ wl ts) :=
+  ⟨by have := parseTemplate_steps cfg ts; omega, parseTemplate_steps cfg ts, (blockLoop cfg [] 0 ts).2.j⟩
+
+/-- the same for a single `Tag.get_node`: once the calling loop has done its `next(stream)`, the pass is paid for -/
+theorem get_node_pass_paid (cfg : Cfg) (d : Nat) (t : Tok) (r : List Tok) :
+    (getNode cfg d t r).1.iters + 1 + wl (getNode cfg d t r).1.rest.tail ≤ wl (t :: r) :=
+  (getNode cfg d t r).2.n
 
 /-- **The `{% case %}` loop cannot spin at the end of input** (the 2.2.1 hang): at EOF the
 `while not stream.current.is_tag("endcase")` loop raises LiquidSyntaxError at once … -/
